@@ -9,17 +9,29 @@ def _c02_nontrivial(req, out):
 
 CFG = {
     "level": "proof",
-    "level_text": "Lean 4 theorems: each kernel model (SWAR popcount translated from source, select-in-byte over the "
-                  "dumped table, CTZ/broadword/PDEP select, block popcounts, in-word parenthesis kernels) equals the "
-                  "bit-at-a-time spec for all 2^64 words and all k; tie: translator re-generates kernels/tables each run "
-                  "and every host dispatch path is diffed against the compiled model.",
+    "level_text": "Lean 4 theorems, all proved in full (no partial results): for all 2^64 words and every k / p, the model "
+                  "of each kernel equals the bit-at-a-time spec - SWAR popcount (translated from source), count_ones, "
+                  "trailing_zeros/ilog2/PDEP primitives, select_in_byte over the dumped 2048-entry table, "
+                  "select_in_word CTZ loop / broadword (translated SWAR byte counts + loop + table) / PDEP, "
+                  "block_popcount portable and AVX2 lane model for every 8-word block, find_unmatched_close_in_word and "
+                  "find_close_in_word against the linear excess scan; tie: translator re-generates kernels/tables each run "
+                  "and every host dispatch path is diffed against the compiled model (which also cross-checks the spec).",
     "level_note": "Trusts Lean kernel + bv_decide certificate checker (axiom listed per theorem), the rs2lean translator, "
                   "the lane/PDEP/ctz semantics in Model/Prim.lean, and the differential harness. NEON/SVE2 paths unreachable on this host.",
     "technique": "Lean 4 proof (bv_decide + induction) over translated kernels; differential correspondence vs compiled model",
     "variants": [{"features": []}],
     "lean_modules": ["SuccinctlyVerif.Props.C02"],
     "lean_files": ["SuccinctlyVerif/Props/C02.lean", "SuccinctlyVerif/Proof/Kernels.lean",
-                   "SuccinctlyVerif/Model/Words.lean", "SuccinctlyVerif/Model/Prim.lean"],
+                   "SuccinctlyVerif/Proof/KernelsList.lean", "SuccinctlyVerif/Proof/KernelsBP.lean",
+                   "SuccinctlyVerif/Proof/KernelsBlock.lean", "SuccinctlyVerif/Proof/KernelsSelect.lean",
+                   "SuccinctlyVerif/Proof/KernelsPdep.lean",
+                   "SuccinctlyVerif/Model/Words.lean", "SuccinctlyVerif/Model/Prim.lean",
+                   "SuccinctlyVerif/Spec/Bits.lean", "SuccinctlyVerif/Spec/BP.lean"],
+    "required_theorems": ["SV.Props.C02." + t for t in (
+        "popcount_portable_eq", "popc_eq", "select_in_byte_eq", "tz_eq", "ilog2_eq", "pdep_bit",
+        "select_ctz_eq", "select_broadword_eq", "broadword_in_range", "select_pdep_eq", "select_paths_agree",
+        "block_popcount_portable_eq", "block_popcount_avx2_eq",
+        "find_unmatched_close_eq", "find_close_in_word_eq")],
     "generated": ["common:", "tables"],
     "allow_bv_decide": True,
     "nontrivial": _c02_nontrivial,
